@@ -24,7 +24,7 @@ worker() {
     n=$((n+1)); [ $(( (n-1) % N )) -ne $i ] && continue
     if ! git -C $wt apply --check $patch 2>/dev/null; then echo "SKIP $name (patch does not apply)"; continue; fi
     git -C $wt apply $patch
-    out=$(VERIF_OUT_SUFFIX=-w$i ./bin/govc check --repo $wt --property $prop --no-evidence 2>&1); rc=$?
+    out=$(VERIF_OUT_SUFFIX=-w$i ${GOVC:-./bin/govc} check --repo $wt --property $prop --no-evidence 2>&1); rc=$?
     git -C $wt checkout -q -- . ; git -C $wt clean -fdq
     nv=$(echo "$out" | grep -c '^VIOLATION')
     nc=$(echo "$out" | grep '^VIOLATION' | grep -vc 'no-failing-input-found')
